@@ -318,7 +318,7 @@ PROPS["C09"] = dict(
 	level_note="Numbers are outside the claim: Number::canonical_with is lexical's float parser followed by ryu-js (floating point, 128-bit multiplications) and is beyond CBMC at any useful digit count; the known 1-ulp deviations for > 19 digits stay invisible to this check. That canonicalize_with really sorts with this comparator is trusted to std's sort_by (C10 reduction); the recursion over children is read-only.",
 	functions=["object::canonical_cmp", "print::string_literal", "print::printed_string_size"],
 	bounds="keys <= 2 characters; strings <= 2 characters",
-	outside=["number canonicalization (floating point)", "std's sort_by (trusted)", "keys longer than 2 characters (comparator) / 1 character (wrapper)", "the recursion of Value::canonicalize_with into nested arrays/objects"],
+	outside=["number canonicalization (floating point)", "std's sort_by (trusted)", "keys longer than 2 characters (comparator) / 1 character (wrapper)", "values nested deeper than three levels; the order among members with equal keys whose values are containers"],
 	stubs=[STUB_GROW], assumptions=["keys are compared through the real canonical_cmp on stack-allocated entries"],
 	harnesses=C09H + [dict(h, tier="quick") for h in C08S],
 )
@@ -453,9 +453,21 @@ PROPS["C14"]["harnesses"] = PROPS["C14"]["harnesses"] + [OBJ("quick", 4, 1500), 
 PROPS["C14"]["functions"] = PROPS["C14"]["functions"] + ["impl Clone / PartialEq / Ord / PartialOrd / Hash for Object (from MIR), on every object reachable by <= 4 / 5 operations, against a twin with the same entries and an EMPTY index, its clone and its strict prefix"]
 PROPS["C14"]["assumptions"] = PROPS["C14"]["assumptions"] + ["Object-level check (MIR): Vec<Entry>'s ==, cmp and hash are modelled on the entry lists (std trusted); the object's index is compared structurally"]
 PROPS["C14"]["outside"] = ["nested arrays/objects beyond one slice level (Kani laws)", "objects of more than 4 (quick) / 5 (thorough) entries", "Kani on non-empty heap objects (does not finish; replaced by the MIR-based object check)"]
+def CANONN(tier, level, cap):
+	what = "objects of <= 2 members with values from {t, {}, {k:t}, {k:t,k:f}, [{k:t,k:f}]} and arrays of <= 2 items from {t, {k:t,k:f}}" if level == 1 else \
+	       "the level-1 values plus objects of <= 2 members with a value among {k:{k:t,k:f}} (three levels) and {k:t,k:f,k:t}, and objects of 3 members with values from {t, {k:t}, {k:t,k:f}}"
+	h = H("obj::canonicalize_nested_l%d" % level, "mir", tier, cap,
+	      "Value::canonicalize_with and Object::canonicalize_with from MIR, recursively, on every value among %s; EVERY key at every depth is one symbolic character (equalities and UTF-16 order decided by z3). After the call: the value is unordered-equal to the original "
+	      "(recursive definition), every object at every depth has its members in non-decreasing UTF-16 key order (booleans break ties) and a canonical index, and a second call changes nothing" % what,
+	      "nesting <= %d, %s" % (2 if level == 1 else 3, "objects of <= 2 members" if level == 1 else "objects of <= 3 members"), gb=2.0)
+	h["tool"] = "objcheck"
+	h["canon_nested"] = level
+	return h
+
+
 for _p in ("C09", "C10"):
-	PROPS[_p]["harnesses"] = PROPS[_p]["harnesses"] + [OBJ("quick", 4, 1500), OBJ("thorough", 5, 7200)]
-	PROPS[_p]["functions"] = PROPS[_p]["functions"] + ["Object::canonicalize_with (from MIR; one-character keys over all of Unicode, symbolic: str order and UTF-16 order may disagree)"]
+	PROPS[_p]["harnesses"] = PROPS[_p]["harnesses"] + [OBJ("quick", 4, 1500), OBJ("thorough", 5, 7200), CANONN("quick", 1, 600), CANONN("thorough", 2, 3600)]
+	PROPS[_p]["functions"] = PROPS[_p]["functions"] + ["Object::canonicalize_with (from MIR; one-character keys over all of Unicode, symbolic: str order and UTF-16 order may disagree)", "Value::canonicalize_with (from MIR: the recursion into arrays and objects, nested check)"]
 	PROPS[_p]["assumptions"] = PROPS[_p]["assumptions"] + ["Object::canonicalize_with is interpreted from its MIR over the Vec/IndexMap models; sort_by with canonical_cmp is represented by the UTF-16 code-unit order relation (that canonical_cmp implements that order is decided by the Kani harnesses c09_member_order_*); values are opaque tags (numbers are outside)"]
 PROPS["C06"]["functions"] += ["Object::{push,push_entry,push_front,push_entry_front,remove_at,insert,insert_front,remove,remove_unique,sort,index_of,redundant_index_of} and the three removal iterators' next/Drop (from MIR)"]
 PROPS["C06"]["assumptions"] = PROPS["C06"]["assumptions"] + [
@@ -563,7 +575,7 @@ def FRAGS(tier, level, cap):
 	return h
 
 
-PROPS["C11"]["harnesses"] = PROPS["C11"]["harnesses"] + [MAPPED("quick", 3, 900), MAPPED("thorough", 4, 3600), CONVERT("quick", 2, 600), CONVERT("thorough", 3, 1800), FRAGS("quick", 1, 600), FRAGS("thorough", 2, 2400)]
+PROPS["C11"]["harnesses"] = PROPS["C11"]["harnesses"] + [MAPPED("quick", 3, 900), MAPPED("thorough", 6, 3600), CONVERT("quick", 2, 600), CONVERT("thorough", 4, 1800), FRAGS("quick", 1, 600), FRAGS("thorough", 2, 2400)]
 PROPS["C11"]["functions"] = PROPS["C11"]["functions"] + ["Object::get_mapped_entries / get_mapped / their _with_index variants / the four get_unique_mapped* lookups / iter_mapped and the MappedEntries / MappedValues / MappedEntriesWithIndex / MappedValuesWithIndex / object::IterMapped iterators' next and their closures (from MIR)",
 	"Value::get_fragment, get_array_fragment, Object::get_fragment, Entry::get_fragment, Value::traverse, Traverse::next, FragmentRef::sub_fragments, SubFragments::next_back and its closure, Value::volume and its closure, FragmentRef::is_value (from MIR)",
 	"<BTreeMap<K, V> as TryFromJson>::try_from_json_at and its closure, Object::iter_mapped, object::IterMapped::next (from MIR; BTreeMap::new/insert, str::parse::<String>, Result::map_err, Try::branch, FromResidual are models of their contracts)", "<Vec<T> as TryFromJson>::try_from_json_at and its closure, <bool as TryFromJson>::try_from_json_at, <Vec<Value> as JsonArray>::iter_mapped, array::IterMapped::next and its closure, Value::kind, Mapped::new (from MIR)"]
